@@ -172,6 +172,47 @@ func damage(r *vh.Rand, in []any) []any {
 	return in
 }
 
+// damageDeep damages the list itself or (for the recursive helpers) a nested operand list.
+func damageDeep(r *vh.Rand, in []any) []any {
+	type slot struct {
+		nested []any
+		put    func(repl []any) []any
+	}
+	var slots []slot
+	if len(in) >= 2 && r.Chance(50) {
+		if l, ok := in[0].([]any); ok && len(l) >= 2 {
+			slots = append(slots, slot{l, func(repl []any) []any {
+				out := append([]any{}, in...)
+				out[0] = repl
+				return out
+			}})
+		}
+		if rest, ok := in[1].([]any); ok {
+			for i, p := range rest {
+				pr, ok := p.([]any)
+				if !ok || len(pr) < 2 {
+					continue
+				}
+				if l, ok := pr[1].([]any); ok && len(l) >= 2 {
+					i, pr := i, pr
+					slots = append(slots, slot{l, func(repl []any) []any {
+						out := append([]any{}, in...)
+						nr := append([]any{}, rest...)
+						nr[i] = []any{pr[0], repl}
+						out[1] = nr
+						return out
+					}})
+				}
+			}
+		}
+	}
+	if len(slots) > 0 {
+		s := slots[r.Intn(len(slots))]
+		return s.put(damageDeep(r, s.nested))
+	}
+	return damage(r, in)
+}
+
 func noLeaf(v any) any {
 	switch x := v.(type) {
 	case tplm.Leaf:
@@ -480,6 +521,9 @@ func main() {
 		in := n.value().([]any)
 		if rr.Chance(30) {
 			bad := damage(rr, in)
+			if op == "bopr" || op == "bexr" {
+				bad = damageDeep(rr, in)
+			}
 			if expr { // BinaryExpr inputs hold ast.Expr leaves only: junk = nil
 				bad = noLeaf(bad).([]any)
 			}
